@@ -236,7 +236,7 @@ def primary_monitors(mons, stuck=False):
 
 
 class StreamPart:
-    def __init__(self, name="stream", n_quick=2000, n_thorough=60000, max_size=7, max_size_thorough=12):
+    def __init__(self, name="stream", n_quick=6000, n_thorough=60000, max_size=7, max_size_thorough=12):
         self.name, self.n_quick, self.n_thorough = name, n_quick, n_thorough
         self.max_size, self.max_size_thorough = max_size, max_size_thorough
 
